@@ -325,3 +325,10 @@ M("C13", "man-dv-index", OPM, 'x.text = f"{man._dv[i] / units.km:.6f}"', 'x.text
 M("C13", "omm-element-order", OMM, "            elements = [i, Omega, e, omega, M, n]\n            form = \"TLE\"\n            propagator = \"Sgp4\"\n            kwargs = {\n                \"bstar\": decode_unit(data,", "            elements = [i, omega, e, Omega, M, n]\n            form = \"TLE\"\n            propagator = \"Sgp4\"\n            kwargs = {\n                \"bstar\": decode_unit(data,", "B11")
 M("C13", "kvn-unit-bracket", COMMONS, '            attrib = {"units": unit.rstrip("]")}', '            attrib = {"units": unit}', "B12")
 M("C17", "dkep2aol-args", MAN, "    return np.arctan2(dOmega * np.sin(orb.infos.kep.i), di)", "    return np.arctan2(di, dOmega * np.sin(orb.infos.kep.i))", "R17.4")
+
+M("C07", "operator-change", BETA, "        a1 = (k_e / n0) ** (2 / 3)", "        a1 = (k_e * n0) ** (2 / 3)", "R07.3")
+M("C07", "dropped-factor", BETA, "        rdot = sqrt(a) / r * esinE", "        rdot = sqrt(a) * esinE", "R07.3")
+R("C07", "refactor-rename-temp", BETA, "        rfdot = sqrt(p_L) / r\n", "        rfdot = sqrt(p_L) / r\n        unused_alias = rfdot\n")
+M("C18", "sun-formula", SOL, "        r = 1.000140612 - 0.016708617 * np.cos(M) - 0.000139589 * np.cos(2 * M)", "        r = 1.000140612 - 0.016708617 * np.sin(M) - 0.000139589 * np.cos(2 * M)", "R18.2")
+M("C02", "nutation-argument-sign", I80, "        - (5 * r + 134.1362608) * ttt\n        + 0.0020708 * ttt ** 2\n        + 2.2e-6 * ttt ** 3", "        + (5 * r + 134.1362608) * ttt\n        + 0.0020708 * ttt ** 2\n        + 2.2e-6 * ttt ** 3", "R02.8")
+R("C02", "refactor-commute", I80, "    theta = (2004.3109 * t - 0.42665 * t ** 2 - 0.041833 * t ** 3) / 3600.0", "    theta = (t * 2004.3109 - 0.42665 * t * t - t ** 3 * 0.041833) / 3600.0")
